@@ -5,6 +5,7 @@ import os
 from .. import common as C
 
 PID = "C09"
+LAYERS = ["Wal"]
 
 
 def gen_cases(v, out):
@@ -18,7 +19,7 @@ def run(v):
     if not proof_ok:
         v.violation("C09/proof-broken", "; ".join(problems),
                     {"theorem_or_correspondence": "Properties/C09.v", "problems": problems}, found_input=False)
-    ok, o = C.build_runner()
+    ok, o = C.build_runner(LAYERS)
     if not ok:
         v.violation("C09/runner-build", o[-1500:], {"theorem_or_correspondence": "extraction of Wal/Entry.v"}, False)
         return
@@ -33,7 +34,7 @@ def run(v):
         v.violation("C09/harness-run", o[-1500:], {"theorem_or_correspondence": "correspondence wal_run (harness run)"}, False)
         return
     cases = os.path.join(out, "cases.txt")
-    total, mism, errors = C.run_runner(cases)
+    total, mism, errors = C.run_runner(cases, LAYERS)
     stats = json.load(open(os.path.join(out, "stats.json")))
     v.coverage.update({
         "evaluations": total,
@@ -75,7 +76,7 @@ def replay(v, path):
     if not lines:
         print("replay file names no input:", rep["replay"].get("theorem_or_correspondence"))
         return 1
-    C.build_runner()
+    C.build_runner(LAYERS)
     C.build_harness("wal")
     out = os.path.join(C.WORK, PID, "replay")
     os.makedirs(out, exist_ok=True)
@@ -85,7 +86,7 @@ def replay(v, path):
     if rc != 0:
         print(o)
         return 2
-    total, mism, errors = C.run_runner(os.path.join(out, "cases.txt"), shards=1)
+    total, mism, errors = C.run_runner(os.path.join(out, "cases.txt"), LAYERS, shards=1)
     for m in mism:
         print("REPLAY-MISMATCH entry=%s model=%s" % (m["entry"], m["model"][:400]))
     print("replayed %d case(s), %d mismatch(es)" % (total, len(mism)))
